@@ -112,12 +112,18 @@ PROPS["C01"]["streams"] = [VALSET, CONSUMER, EPOCH, ISOLATION]
 PROPS["C01"]["fields"] = r"^(diff|accum|cinit|applycc)\.|^cons\.(cc|pendch|cend|cinit)|^end\.(sent|valupd)|^c\d+\.(pend|valset)"
 PROPS["C01"]["rule"] += "; " + CONS_RULE
 
+REWARDS = dict(name="rewards", quick=(6, 500), thorough=(28, 3000))
+PROPS["C16"] = dict(streams=[REWARDS], rule=PROV_RULE + "; rewards stream: ICS-20 reward transfers through the real provider transfer middleware (memo with consumer id, legacy identification through the channel's client, plain memo, other receivers, failing transfers; amounts 1..10^6 in three denoms), denom registration by governance and per-consumer allow-lists, community tax 0..1, per-consumer commission rates, opt-ins/outs and power changes between crediting and payout, NumberOfEpochsToStartReceivingRewards=2 so that joiners are not yet eligible, several consumers sharing denoms, stops and deletions",
+    assumptions=PROV_ASSUME + ["bank, distribution and the ICS-20 application are scripted: balances are kept per module account, AllocateTokensToValidator records (validator, DecCoins, commission rate) and FundCommunityPool moves coins; the ICS-20 application mints the received coins for the receiver",
+                               "the Cosmos-Hub-only 'stride-1 / channel-391' patch of the middleware is not exercised (chain id is not cosmoshub-4)"],
+    fields=r"^begin\.(pool|distr|cp|reward-effects)|^c\d+\.alloc|^reward\.")
+
 NOT_APPLICABLE = {
     "C07": "not claimed in this round: the harness does not yet construct real signed duplicate-vote evidence / conflicting headers; the technique applies (decision logic + frame), slice not built (DESIGN.md §10)",
-    "C16": "not claimed in this round: needs a Dec-exact model of the reward split/allocation path and scripted bank accounting; the technique applies (arithmetic conservation laws), slice not built (DESIGN.md §10)",
 }
 
 LEVEL_TEXT = {
+    "C16": "Theorems (Props/C16, 10^18-scaled integer arithmetic = LegacyDec): one (consumer, denom) step splits the credit EXACTLY into distribution-module tokens + community-pool tokens + remaining credit; validators together never receive more than was moved for them and all but n*(tokens+1)*10^-18 of it; only current, eligible members are paid and every eligible member is; payouts monotone in consumer power and never above the exact share; over a whole AllocateTokens the three module accounts conserve every denom and credits fall by exactly what left the pool; credits are always backed by the pool, so the roll-back branch is unreachable; crediting is exact. Tie: one-step correspondence of balances, credits and every AllocateTokensToValidator / FundCommunityPool / bank call + Spec.C16 clauses on the implementation's own numbers.",
     "C19": "Theorems: a failed launch leaves exactly the pre-launch state with phase registered and spawn cleared (others untouched), the fall-back cannot fail when initial height and chain id agree, creation/update keep them in agreement, deletion all-or-nothing, removal/infraction switch/meter have no error path. Tie: block results and all-or-nothing clauses on every block of every stream, with injected failures of external calls.",
     "C08": "Theorems: double-sign never punishes; effects = jailPlan (exactly the validator owning the key, existing, not unbonded/tombstoned/jailed, consumer's own downtime parameters, mapped infraction height); acks when declined; unknown id => error ack; consumer keeps one outstanding report per validator and clears on ack. Tie: one-step correspondence incl. the calls made to staking/slashing + Spec.Slash on the implementation.",
     "C09": "Theorems: meter <= allowance after BeginBlock, at most one allowance per period, none before the candidate time, bounced iff negative, deduction before handling, WINDOW BOUND (jailed power <= start meter + accrued allowances + one validator's power, for every trace), consumer retry FSM (no send while waiting, none before the delay, bounce keeps the packet, handled removes it once). Tie: correspondence of meter/candidate/acks and of the consumer queue/record.",
